@@ -32,6 +32,7 @@ def h_dims(n, edges, feeder, fluid, with_config=True, with_labels=True):
             dims.append(("jins%d" % j, [True, False]))
         dims.append(("h%d" % j, [0.0, 20.0]))
     dims.append(("feeder", FEEDER_KINDS))
+    dims.append(("tgrad", [0.0, 9.0]))  # junction start temperatures uniform / graded along the index
     if with_labels:
         dims.append(("labels", LABEL_KINDS))
     if with_config:
@@ -75,7 +76,7 @@ def h_spec(case):
         if pt["e%d" % ei] == "pipe_h":
             heights[b] = heights[b] + 15.0
     for j in range(n):
-        ops.append({"op": "junction", "id": "j%d" % j, "index": lab[j], "pn_bar": p0, "tfluid_k": 300.0,
+        ops.append({"op": "junction", "id": "j%d" % j, "index": lab[j], "pn_bar": p0, "tfluid_k": 300.0 + pt.get("tgrad", 0.0) * j,
                     "height_m": heights[j], "in_service": pt.get("jins%d" % j, True)})
     fk = pt.get("feeder", "one")
     ops.append({"op": "ext_grid", "id": "eg0", "junction": "j%d" % feeder, "p_bar": p0, "t_k": 300.0,
